@@ -5,8 +5,21 @@
 //  (b) oracle: the property's predicates on the real outputs against a long double one-sided Jacobi SVD.
 //  stream 6 (+ fixed witnesses, stream 7): runs that END partially converged: prescribed spectra with tight clusters next to well
 //      separated values, leading singular vector (nearly) orthogonal to the solver's fixed start vector, maxit 1..12, ncv barely above ncomp.
+//  views (blind spot "arguments are always owning, contiguous matrices"): in streams 1,3,5,6,8,9 a share of the cases hands the matrix to the
+//      constructor as a block of a larger matrix / a Map with an outer stride / the transposed expression of the other storage order / a named
+//      Ref that holds an evaluated expression (dense), or uncompressed / with explicit zeros / as an inner panel of a larger sparse matrix (sparse),
+//      NaN canaries around the view and in the unused slots; every answer must be bitwise what the OWNING matrix of the same type gives
+//      (explicit zeros: up to the sign of zero), the handle must point into the caller's storage, the storage must be unchanged; stream 10 passes
+//      the view EXPRESSIONS directly to the constructor and adds sparse matrices with StorageIndex = long.
+//      NOT legal (and not tested): an argument that Eigen::Ref<const MatrixType> can only bind by evaluating it into the temporary Ref made at
+//      the call site (a row-major object for MatrixType = column-major, A.transpose() of the same storage order, 2*A, a Map with an inner
+//      stride, another StorageIndex): the solver copies the Ref's pointer and the temporary dies with the constructor call.
+//  stream 8: accessor sequences (k1 < k2 > k3, k > nconv, k = 0, U/V/S in any order, twice per object) with NO hidden accessor calls by the harness:
+//      every answer = what a fresh object answers to that single call; all answers of one compute() agree on their common leading columns; the
+//      factor identities hold for every (k_u, k_v) pair that was requested.   stream 9: configuration sweep (guards at their boundaries).
 // Eigen assertions are turned into exceptions so that an out-of-range block (stale cache) is an observable outcome, not an abort.
 #include <stdexcept>
+#include <memory>
 struct EigenAssertError : std::logic_error { using std::logic_error::logic_error; };
 #define eigen_assert(x) do { if (!(x)) throw EigenAssertError(#x); } while (false)
 #include "common.h"
@@ -21,6 +34,7 @@ using namespace Spectra;
 typedef Eigen::MatrixXd Mat; typedef Eigen::VectorXd Vec;
 typedef Eigen::Matrix<double, Eigen::Dynamic, Eigen::Dynamic, Eigen::RowMajor> RMat;
 typedef Eigen::SparseMatrix<double> SpMat; typedef Eigen::SparseMatrix<double, Eigen::RowMajor> RSpMat;
+typedef Eigen::SparseMatrix<double, Eigen::ColMajor, long> SpMatL; typedef Eigen::SparseMatrix<double, Eigen::RowMajor, long> RSpMatL;
 typedef long double LD;
 typedef Eigen::Matrix<LD, Eigen::Dynamic, Eigen::Dynamic> LMat;
 
@@ -31,6 +45,7 @@ struct SpectraVerifAccess {
     template <class S> static Mat evecs(S& s) { return s.m_evecs; }
     template <class S> static long mm(S& s) { return (long) s.m_m; }
     template <class S> static long nn(S& s) { return (long) s.m_n; }
+    template <class S> static auto matref(S& s) -> decltype((s.m_mat)) { return s.m_mat; }
     template <class E> static Vec ritz_val(E& e) { return e.m_ritz_val; }
     template <class E> static std::vector<int> ritz_conv(E& e) { std::vector<int> r; for (long i = 0; i < e.m_ritz_conv.size(); i++) r.push_back(e.m_ritz_conv[i] ? 1 : 0); return r; }
     template <class E> static Mat facH(E& e) { return e.m_fac.matrix_H(); }
@@ -69,6 +84,96 @@ template <> struct Conv<Mat> { static Mat make(const Mat& A) { return A; } stati
 template <> struct Conv<RMat> { static RMat make(const Mat& A) { return A; } static const char* name() { return "dense-row"; } };
 template <> struct Conv<SpMat> { static SpMat make(const Mat& A) { SpMat S = A.sparseView(); S.makeCompressed(); return S; } static const char* name() { return "sparse-col"; } };
 template <> struct Conv<RSpMat> { static RSpMat make(const Mat& A) { RSpMat S = A.sparseView(); S.makeCompressed(); return S; } static const char* name() { return "sparse-row"; } };
+
+template <> struct Conv<SpMatL> { static SpMatL make(const Mat& A) { SpMatL S = A.sparseView(); S.makeCompressed(); return S; } static const char* name() { return "sparse-col-long"; } };
+template <> struct Conv<RSpMatL> { static RSpMatL make(const Mat& A) { RSpMatL S = A.sparseView(); S.makeCompressed(); return S; } static const char* name() { return "sparse-row-long"; } };
+
+// ---------------------------------------------------------------- how the matrix is handed to the solver: the owning object (view 0) or a view with canaries
+// ref(): what the constructor is given; direct(): the solver's handle points into THIS storage; intact(): the storage is bit for bit what it was
+static const double CANARY = std::numeric_limits<double>::quiet_NaN();
+static void snap_add(std::vector<std::vector<unsigned char>>& sn, const void* p, size_t n) { const unsigned char* c = (const unsigned char*) p; sn.push_back(n ? std::vector<unsigned char>(c, c + n) : std::vector<unsigned char>()); }
+static bool snap_same(const std::vector<unsigned char>& sn, const void* p, size_t n) { return sn.size() == n && (n == 0 || std::memcmp(sn.data(), p, n) == 0); }
+template <class DM> struct DenseHolder {
+    typedef Eigen::Ref<const DM> RefT;
+    typedef Eigen::Matrix<double, Eigen::Dynamic, Eigen::Dynamic, DM::IsRowMajor ? Eigen::ColMajor : Eigen::RowMajor> Other;
+    int view; DM own, big, tsrc; Other oth; std::vector<double> buf; std::unique_ptr<RefT> r; const double* expect = nullptr; long expect_os = 0; bool evaluated = false;
+    std::vector<std::vector<unsigned char>> sn;
+    DenseHolder(const Mat& A, int v, Rng& q) : view(v) {
+        const long m = A.rows(), n = A.cols();
+        switch (v) {
+        case 1: { const long p = q.range(0, 3), c = q.range(0, 3), t = q.range(1, 3), u = q.range(0, 3);        // block of a larger matrix: outer stride > inner size
+                  big = DM::Constant(m + p + t, n + c + u, CANARY); big.block(p, c, m, n) = A; r.reset(new RefT(big.block(p, c, m, n))); expect = &big(p, c); expect_os = big.outerStride(); break; }
+        case 2: { const long inner = DM::IsRowMajor ? n : m, outer = DM::IsRowMajor ? m : n, ld = inner + q.range(1, 5), off = q.range(0, 4);
+                  buf.assign((size_t) (off + ld * outer + 3), CANARY);
+                  for (long i = 0; i < m; i++) for (long j = 0; j < n; j++) buf[(size_t) (off + (DM::IsRowMajor ? i * ld + j : i + j * ld))] = A(i, j);
+                  Eigen::Map<const DM, 0, Eigen::OuterStride<>> mp(buf.data() + off, m, n, Eigen::OuterStride<>(ld)); r.reset(new RefT(mp)); expect = buf.data() + off; expect_os = ld; break; }
+        case 3: { oth = A.transpose(); r.reset(new RefT(oth.transpose())); expect = oth.data(); expect_os = oth.outerStride(); break; }      // transposed expression of the OTHER storage order: binds directly
+        case 4: { tsrc = A.transpose(); r.reset(new RefT(tsrc.transpose())); expect = r->data(); expect_os = r->outerStride(); evaluated = (r->data() != tsrc.data()); break; }   // same storage order: evaluated into the NAMED Ref, which this holder keeps alive
+        default: own = A; r.reset(new RefT(own)); expect = own.data(); expect_os = own.outerStride();
+        }
+        snap_add(sn, own.data(), sizeof(double) * own.size()); snap_add(sn, big.data(), sizeof(double) * big.size()); snap_add(sn, tsrc.data(), sizeof(double) * tsrc.size());
+        snap_add(sn, oth.data(), sizeof(double) * oth.size()); snap_add(sn, buf.data(), sizeof(double) * buf.size()); snap_add(sn, r->data(), view == 4 ? sizeof(double) * (size_t) (m * n) : 0);
+    }
+    const RefT& ref() const { return *r; }
+    std::string suffix() const { const char* nm[] = {"", "+block", "+map", "+tr", "+evalref"}; return nm[view]; }
+    bool signed_zero_only() const { return false; }
+    bool direct(const RefT& h) const { return h.data() == expect && h.outerStride() == expect_os && h.rows() == r->rows() && h.cols() == r->cols(); }
+    bool intact() const { return snap_same(sn[0], own.data(), sizeof(double) * own.size()) && snap_same(sn[1], big.data(), sizeof(double) * big.size()) && snap_same(sn[2], tsrc.data(), sizeof(double) * tsrc.size())
+        && snap_same(sn[3], oth.data(), sizeof(double) * oth.size()) && snap_same(sn[4], buf.data(), sizeof(double) * buf.size()) && snap_same(sn[5], r->data(), sn[5].size()); }
+};
+template <class SM> struct SparseHolder {
+    typedef Eigen::Ref<const SM> RefT; typedef typename SM::StorageIndex SI;
+    int view; SM P; std::unique_ptr<RefT> r; long pre = 0; bool unc = false, xz = false, sub = false; long spare = 0, explicit_zeros = 0;
+    std::vector<std::vector<unsigned char>> sn;
+    SparseHolder(const Mat& A, int v, Rng& q) : view(v) {
+        const long m = A.rows(), n = A.cols(), outer = SM::IsRowMajor ? m : n, inner = SM::IsRowMajor ? n : m;
+        unc = (v == 1 || v == 3); xz = (v == 2 || v == 3); sub = (v == 4); if (sub) unc = q.coin();
+        long post = 0; if (sub) { pre = q.range(0, 2); post = q.range(pre == 0 ? 1 : 0, 2); }
+        const long tot = outer + pre + post;
+        P = SM::IsRowMajor ? SM(tot, inner) : SM(inner, tot);
+        Eigen::VectorXi sizes(tot); for (long o = 0; o < tot; o++) sizes[o] = (int) (inner + (unc ? q.range(1, 3) : 0));
+        P.reserve(sizes);
+        for (long o = 0; o < tot; o++) for (long i = 0; i < inner; i++) {
+            const bool inside = (o >= pre && o < pre + outer);
+            double val = CANARY;                                                   // the outer vectors around an inner panel hold NaN in every position
+            if (inside) { val = SM::IsRowMajor ? A(o - pre, i) : A(i, o - pre); if (val == 0.0) { if (!(xz && q.coin(0.4))) continue; explicit_zeros++; } }
+            if (SM::IsRowMajor) P.insert(o, i) = val; else P.insert(i, o) = val;
+        }
+        if (!unc) P.makeCompressed();
+        else for (long o = 0; o < tot; o++) for (long p = (long) P.outerIndexPtr()[o] + (long) P.innerNonZeroPtr()[o]; p < (long) P.outerIndexPtr()[o + 1]; p++) { P.valuePtr()[p] = CANARY; P.innerIndexPtr()[p] = (SI) 0; spare++; }   // unused slots of the uncompressed format
+        if (sub) { if constexpr (SM::IsRowMajor) r.reset(new RefT(P.middleRows(pre, m))); else r.reset(new RefT(P.middleCols(pre, n))); }
+        else r.reset(new RefT(P));
+        const size_t cap = (size_t) P.outerIndexPtr()[tot];
+        snap_add(sn, P.valuePtr(), sizeof(double) * cap); snap_add(sn, P.innerIndexPtr(), sizeof(SI) * cap); snap_add(sn, P.outerIndexPtr(), sizeof(SI) * (size_t) (tot + 1));
+        snap_add(sn, P.innerNonZeroPtr(), P.innerNonZeroPtr() ? sizeof(SI) * (size_t) tot : 0);
+    }
+    const RefT& ref() const { return *r; }
+    std::string suffix() const { const char* nm[] = {"", "+unc", "+xz", "+unc+xz", "+sub"}; return std::string(nm[view]) + (sub && unc ? "+unc" : ""); }
+    bool signed_zero_only() const { return xz; }          // explicit zeros add terms 0*x to the sums: only the sign of a zero can differ
+    bool direct(const RefT& h) const {
+        return h.valuePtr() == P.valuePtr() && h.innerIndexPtr() == P.innerIndexPtr() && h.outerIndexPtr() == P.outerIndexPtr() + pre
+            && h.innerNonZeroPtr() == (P.innerNonZeroPtr() ? P.innerNonZeroPtr() + pre : nullptr) && h.rows() == r->rows() && h.cols() == r->cols() && h.isCompressed() == !unc;
+    }
+    bool intact() const { const long tot = P.outerSize(); const size_t cap = (size_t) P.outerIndexPtr()[tot];
+        return snap_same(sn[0], P.valuePtr(), sizeof(double) * cap) && snap_same(sn[1], P.innerIndexPtr(), sizeof(SI) * cap) && snap_same(sn[2], P.outerIndexPtr(), sizeof(SI) * (size_t) (tot + 1))
+            && snap_same(sn[3], P.innerNonZeroPtr(), P.innerNonZeroPtr() ? sizeof(SI) * (size_t) tot : 0) && (P.innerNonZeroPtr() != nullptr) == unc; }
+};
+template <class MT> struct HolderOf { typedef SparseHolder<MT> type; };
+template <> struct HolderOf<Mat> { typedef DenseHolder<Mat> type; };
+template <> struct HolderOf<RMat> { typedef DenseHolder<RMat> type; };
+static const int NVIEWS = 5;
+
+// bitwise equality of two answers (NaN canonical); zsign: +0 and -0 count as equal
+static bool same_answer(const Mat& F, const Mat& G, bool zsign, double* maxdiff = nullptr) {
+    if (F.rows() != G.rows() || F.cols() != G.cols()) return false;
+    bool same = true; double md = 0;
+    for (long j = 0; j < F.cols(); j++) for (long i = 0; i < F.rows(); i++) {
+        if (cbits(F(i, j)) != cbits(G(i, j)) && !(zsign && F(i, j) == 0.0 && G(i, j) == 0.0)) same = false;
+        md = std::max(md, std::fabs(F(i, j) - G(i, j)));
+    }
+    if (maxdiff) *maxdiff = md;
+    return same;
+}
 
 static std::string bits_of(const Mat& M) { std::string s; for (long j = 0; j < M.cols(); j++) for (long i = 0; i < M.rows(); i++) { s += " "; s += str(cbits(M(i, j))); } return s; }
 static std::string bits_of(const Vec& v) { std::string s; for (long i = 0; i < v.size(); i++) { s += " "; s += str(cbits(v[i])); } return s; }
@@ -121,11 +226,12 @@ static std::string ops_text(const std::vector<OpSpec>& ops) { std::string s; for
 struct CaseId { uint64_t seed; int stream; long idx; std::string tier; };
 static int g_abs_regime = 0;  // eps*sqrt(d) > 100 (tol + 1e-13) sigma_k^2: the inner solver's ABSOLUTE breakdown threshold eps*sqrt(n) on the residual of A'A is coarser than the requested relative accuracy of the smallest requested eigenvalue sigma_k^2
 static int g_init_orth = 0;   // 10 eps (sigma_1/sigma_2)^2 > tol + 1e-13: Arnoldi::init starts from B*r (close to the dominant eigenvector when it is well separated) and does not re-orthogonalise the first residual, so v2 has an O(eps*theta_1/theta_2) component along v1
-static int g_gram_tiny = 0;   // ||A||^2 < eps^(2/3): the scale below which the inner solver's convergence test and breakdown thresholds are absolute
+static int g_gram_tiny = 0;
+static int g_view = 0;        // how the matrix was handed to the constructor (0: the owning object; see DenseHolder / SparseHolder)   // ||A||^2 < eps^(2/3): the scale below which the inner solver's convergence test and breakdown thresholds are absolute
 static std::string replay_json(const CaseId& c, const std::string& variant, long m, long n, long ncomp, long ncv, const std::vector<OpSpec>& ops, int stale, int rankdef, const std::string& kind, long opno) {
     std::ostringstream o; o << "{\"harness\":\"c16\",\"seed\":" << c.seed << ",\"stream\":" << c.stream << ",\"idx\":" << c.idx << ",\"tier\":\"" << c.tier << "\",\"variant\":\"" << variant
       << "\",\"m\":" << m << ",\"n\":" << n << ",\"ncomp\":" << ncomp << ",\"ncv\":" << ncv << ",\"matrix_kind\":\"" << kind << "\",\"rank_deficient\":" << rankdef
-      << ",\"abs_breakdown_threshold_regime\":" << g_abs_regime << ",\"init_orth_loss_regime\":" << g_init_orth << ",\"gram_norm_below_eps23\":" << g_gram_tiny << ",\"cache_filled_before_last_compute\":" << stale << ",\"failing_op_index\":" << opno << ",\"ops\":\"" << jesc(ops_text(ops)) << "\"}";
+      << ",\"abs_breakdown_threshold_regime\":" << g_abs_regime << ",\"init_orth_loss_regime\":" << g_init_orth << ",\"gram_norm_below_eps23\":" << g_gram_tiny << ",\"view\":" << g_view << ",\"cache_filled_before_last_compute\":" << stale << ",\"failing_op_index\":" << opno << ",\"ops\":\"" << jesc(ops_text(ops)) << "\"}";
     return o.str();
 }
 
@@ -147,18 +253,54 @@ static bool genuine_values(const Vec& s, const std::vector<LD>& sref, LD nA, dou
     return true;
 }
 
+// factor identities on the leading kk columns of one returned U and one returned V (kk <= both column counts, s[kk-1] > 1e-4 ||A||):
+// |U'U - I|, |V'V - I| <= 100 (tol + 1e-13) cond^2, |AV - US|, |A'U - VS| <= 100 (tol + 1e-13) cond ||A||, cond = ||A|| / s[kk-1]
+static bool grade_pair(const Mat& A, const Mat& U, const Mat& V, const Vec& s, long kk, LD nA, double tol, std::string& what) {
+    LMat Ul = U.leftCols(kk).cast<LD>(), Vl = V.leftCols(kk).cast<LD>(), Al = A.cast<LD>(); LMat Sl = LMat::Zero(kk, kk); for (long i = 0; i < kk; i++) Sl(i, i) = s[i];
+    LD kappa = nA / (LD) s[kk - 1]; LD tt = (LD) tol + 1e-13L;
+    LD eU = maxabs(Ul.transpose() * Ul - LMat::Identity(kk, kk)), eV = maxabs(Vl.transpose() * Vl - LMat::Identity(kk, kk));
+    LD eAV = maxabs(Al * Vl - Ul * Sl), eAtU = maxabs(Al.transpose() * Ul - Vl * Sl);
+    LD bOrth = 100.0L * tt * kappa * kappa, bRes = 100.0L * tt * kappa * nA;
+    if (!(eU <= bOrth) || !(eV <= bOrth) || !(eAV <= bRes) || !(eAtU <= bRes)) {
+        std::ostringstream w; w << "factor identities violated for k=" << kk << ": |U'U-I|=" << (double) eU << " |V'V-I|=" << (double) eV << " (bound " << (double) bOrth << ") |AV-US|=" << (double) eAV << " |A'U-VS|=" << (double) eAtU << " (bound " << (double) bRes << "), tol=" << tol << " ||A||=" << (double) nA << " cond=" << (double) kappa;
+        what = w.str(); return false;
+    }
+    return true;
+}
+struct Seen { char side; long k; Mat F; };
+// compute() on a reference object: the return value, or -1 and the exception's name
+template <class S> static long compute_outcome(S& s, long maxit, double tol, std::string& ex) {
+    try { ex.clear(); return (long) s.compute(maxit, tol); }
+    catch (const std::invalid_argument&) { ex = "std::invalid_argument"; }
+    catch (const EigenAssertError& e) { ex = std::string("eigen-assert ") + e.what(); }
+    catch (const std::runtime_error&) { ex = "std::runtime_error"; }
+    catch (const std::logic_error&) { ex = "std::logic_error"; }
+    return -1;
+}
+
 // run one history on the real class of matrix type MT; writes one correspondence line and evaluates the oracle
 template <class MT>
-static void run_history(const CaseId& cid, const Gen& g, long ncomp, long ncv, const std::vector<OpSpec>& ops, Out& out, bool do_corr, int vals) {
-    const bool values_oracle = (vals & 1) != 0, genuine_oracle = (vals & 3) != 0;
+// vals: 1 positional value oracle, 2 genuineness only, 4 "pure": the harness makes NO accessor call of its own on the object under test
+// view: how the matrix is handed to the constructor (0 = the owning object)
+static void run_history(const CaseId& cid, const Gen& g, long ncomp, long ncv, const std::vector<OpSpec>& ops, Out& out, bool do_corr, int vals, int view = 0) {
+    const bool values_oracle = (vals & 1) != 0, genuine_oracle = (vals & 3) != 0, pure = (vals & 4) != 0;
     const Mat& A = g.A; const long m = A.rows(), n = A.cols(), d = std::min(m, n);
-    const std::string variant = Conv<MT>::name();
-    MT Am = Conv<MT>::make(A);
+    Rng vq(cid.seed, 180 + (uint64_t) cid.stream, (uint64_t) cid.idx);
+    typename HolderOf<MT>::type H(A, view, vq);
+    const std::string variant = std::string(Conv<MT>::name()) + H.suffix();
+    g_view = view; const bool zsign = H.signed_zero_only();
+    if (view) out.count("view_" + variant);
     std::vector<LD> sref = jacobi_svals(A); const LD nA = sref.empty() ? 0 : sref[0];
     g_gram_tiny = (nA * nA < 3.7e-11L) ? 1 : 0;
     { std::ofstream lc(out.dir + "/lastcase.txt"); lc << replay_json(cid, variant, m, n, ncomp, ncv, ops, 0, g.rankdef, g.kind, -1); }
-    PartialSVDSolver<MT> svd(Am, ncomp, ncv);
+    PartialSVDSolver<MT> svd(H.ref(), ncomp, ncv);
     auto& eg = AX::eigs(svd);
+    // the handle the solver keeps must point INTO the caller's storage (not at a dead temporary), and nothing may ever be written there
+    out.count("oracle_view_handle");
+    if (!H.direct(AX::matref(svd))) out.fail("svd-view-handle", "the solver's matrix handle does not point into the storage of the object / view it was constructed from", replay_json(cid, variant, m, n, ncomp, ncv, ops, 0, g.rankdef, g.kind, -1));
+    struct CanaryGuard { const typename HolderOf<MT>::type& H; Out& out; std::string rp; ~CanaryGuard() { out.count("oracle_view_storage_intact"); if (!H.intact()) out.fail("svd-view-canary", "the caller's matrix storage (matrix, surrounding canaries, unused slots, index arrays) was modified", rp); } }
+        guard{H, out, replay_json(cid, variant, m, n, ncomp, ncv, ops, 0, g.rankdef, g.kind, -1)};
+    std::vector<Seen> seen;     // every factor returned since the last compute()
     const long ncv_eff = AX::ncv(eg);
     std::string req = "svd " + variant + " " + str(m) + " " + str(n) + " " + str(ncomp) + " " + str(ncv) + bits_of(A);
     std::string resp;
@@ -177,8 +319,15 @@ static void run_history(const CaseId& cid, const Gen& g, long ncomp, long ncv, c
             catch (const EigenAssertError& e) { exn = 3; ex = std::string("eigen-assert ") + e.what(); }
             catch (const std::runtime_error&) { exn = 2; ex = "std::runtime_error"; }
             catch (const std::logic_error&) { exn = 2; ex = "std::logic_error"; }
-            out.count("op_compute"); ncompute++;
+            out.count("op_compute"); ncompute++; seen.clear();
             if (exn == 3) { out.fail("svd-compute-assert", "Eigen assertion inside compute(): " + ex, rj(oi)); return; }
+            if (view != 0 || pure) {
+                // the outcome of compute() itself: the same as on a fresh object built from the owning matrix
+                out.count("oracle_compute_fresh");
+                MT Af = Conv<MT>::make(A); PartialSVDSolver<MT> fresh(Af, ncomp, ncv); std::string fex; const long fret = compute_outcome(fresh, o.maxit, o.tol, fex);
+                if (fret != ret || fex != ex) { const double lt = last_tol; last_tol = o.tol;
+                    out.fail(view ? "svd-view" : "svd-latest", "compute(" + str(o.maxit) + ", " + str(o.tol) + ") " + (exn ? "threw " + ex : "returned " + str(ret)) + ", a fresh solver on the owning matrix " + (fret < 0 ? "threw " + fex : "returned " + str(fret)) + std::string(view ? " (matrix passed as " + variant + ")" : ""), rj(oi)); last_tol = lt; }
+            }
             // record what the inner solver holds now
             Vec rv = AX::ritz_val(eg); std::vector<int> fl = AX::ritz_conv(eg); Mat ev = eg.eigenvectors();
             req += " C " + str(o.maxit) + " " + str(cbits(o.tol)) + " " + str(exn);
@@ -221,6 +370,14 @@ static void run_history(const CaseId& cid, const Gen& g, long ncomp, long ncv, c
             if (have) {
                 out.count("oracle_values");
                 if (s.size() != last_ret) out.fail("svd-counts", "singular_values() has " + str(s.size()) + " entries, compute() returned " + str(last_ret), rj(oi));
+                if (view != 0 || pure) {
+                    // the same call on a FRESH object built from the OWNING matrix: independent of the view and of every earlier accessor call
+                    out.count("oracle_values_fresh");
+                    MT Af = Conv<MT>::make(A); PartialSVDSolver<MT> fresh(Af, ncomp, ncv); std::string fex;
+                    if (compute_outcome(fresh, last_maxit, last_tol, fex) < 0) { out.fail("svd-fresh-throws", "a fresh solver on the owning matrix threw " + fex + " in compute() with the arguments of the latest successful compute()", rj(oi)); continue; }
+                    Vec sf = fresh.singular_values();
+                    if (!same_answer(s, sf, zsign)) out.fail(view ? "svd-view" : "svd-accessor-order", "singular_values() differs from what a fresh solver on the owning matrix returns for the same compute arguments" + std::string(view ? " (matrix passed as " + variant + ")" : ""), rj(oi));
+                }
                 bool fin = true, nonneg = true, ord = true; std::string w_gen;
                 for (long i = 0; i < s.size(); i++) { if (!std::isfinite(s[i])) fin = false; if (!(s[i] >= 0)) nonneg = false; if (i > 0 && !(s[i] <= s[i - 1])) ord = false; }
                 if (!fin || !nonneg) { std::ostringstream w; w << "singular value not finite / not non-negative:"; Vec lam = eg.eigenvalues(); for (long i = 0; i < s.size(); i++) w << " sqrt(" << lam[i] << ")=" << s[i]; out.fail("svd-nan", w.str(), rj(oi)); }
@@ -289,36 +446,68 @@ static void run_history(const CaseId& cid, const Gen& g, long ncomp, long ncv, c
             // finiteness of the factors (rank-deficient input: the column of a zero singular value must not be NaN/inf)
             out.count("oracle_factor_finite");
             if (F.size() > 0 && !F.allFinite()) { out.fail("svd-nan", std::string("matrix_") + o.op + "(" + str(o.k) + ") contains non-finite entries (division by a zero / NaN singular value)", rj(oi)); continue; }
-            // latest-compute: a fresh object given only the most recent compute() arguments must return the same factor
-            // (init() uses a fixed seed, so the inner solver is deterministic: bit-for-bit)
-            if (ncompute >= 2) {
-                out.count("oracle_latest");
-                MT Af = Conv<MT>::make(A); PartialSVDSolver<MT> fresh(Af, ncomp, ncv); fresh.compute(last_maxit, last_tol);
+            // latest-compute / view / accessor order: a FRESH object on the OWNING matrix, given only the most recent compute() arguments and only THIS
+            // accessor call, must return the same factor (init() uses a fixed seed, so the inner solver is deterministic: bit for bit; a view with
+            // explicit zeros: up to the sign of zero)
+            Vec s_fresh;
+            if (ncompute >= 2 || view != 0 || pure) {
+                out.count(ncompute >= 2 ? "oracle_latest" : "oracle_fresh_single_call");
+                MT Af = Conv<MT>::make(A); PartialSVDSolver<MT> fresh(Af, ncomp, ncv); std::string fex;
+                if (compute_outcome(fresh, last_maxit, last_tol, fex) < 0) { out.fail("svd-fresh-throws", "a fresh solver on the owning matrix threw " + fex + " in compute() with the arguments of the latest successful compute()", rj(oi)); continue; }
+                s_fresh = fresh.singular_values();
                 Mat Ff;
                 try { Ff = isU ? fresh.matrix_U(o.k) : fresh.matrix_V(o.k); }
                 catch (const EigenAssertError& e) { out.fail("svd-assert", std::string("a FRESH solver given the latest compute() arguments hit an Eigen assertion in matrix_") + o.op + "(" + str(o.k) + ") (undefined behaviour under NDEBUG): nconv=" + str(AX::nconv(fresh)) + ", cached columns=" + str(AX::ecols(fresh)) + " [" + std::string(e.what()).substr(0, 80) + "]", rj(oi)); continue; }
-                bool same = Ff.rows() == F.rows() && Ff.cols() == F.cols();
-                double md = 0; if (same) for (long j = 0; j < F.cols(); j++) for (long i = 0; i < F.rows(); i++) { if (cbits(F(i, j)) != cbits(Ff(i, j))) same = false; md = std::max(md, std::fabs(F(i, j) - Ff(i, j))); }
-                if (!same) { std::ostringstream w; w << "matrix_" << o.op << "(" << o.k << ") after compute #" << ncompute << " differs from what a fresh solver returns for the same (latest) compute arguments: max |diff| = " << md << (stale ? " (eigenvector cache was filled before the latest compute)" : ""); out.fail(stale ? "svd-stale-cache" : "svd-latest", w.str(), rj(oi)); continue; }
+                double md = 0;
+                if (!same_answer(F, Ff, zsign, &md)) {
+                    std::ostringstream w; w << "matrix_" << o.op << "(" << o.k << ") after compute #" << ncompute << " differs from what a fresh solver on the owning matrix returns for the same (latest) compute arguments and this single call: max |diff| = " << md
+                        << (stale ? " (eigenvector cache was filled before the latest compute)" : "") << (view ? " (matrix passed as " + variant + ")" : "") << "; accessor calls since the latest compute():";
+                    for (const Seen& e : seen) w << " " << e.side << "(" << e.k << ")";
+                    out.fail(stale ? "svd-stale-cache" : (ncompute >= 2 ? "svd-latest" : (view ? "svd-view" : "svd-accessor-order")), w.str(), rj(oi)); continue;
+                }
             }
+            // ONE decomposition: every answer since the latest compute() agrees with this one on the common leading columns
+            // (cached side: leftCols of one matrix, bit for bit; computed side: the product B * (e_j / s_j) evaluated with another column count:
+            //  bit for bit up to the sign of zero, else within the product rounding bound 16 (dim + 2) eps sum_l |B(i,l)| / s_j)
+            const Vec s = pure ? s_fresh : Vec(svd.singular_values());
+            {
+                const bool computedSide = (isU == (m > n));
+                for (const Seen& e : seen) if (e.side == o.op) {
+                    const long c = std::min(F.cols(), e.F.cols()); if (c == 0) continue;
+                    out.count("oracle_prefix");
+                    if (same_answer(F.leftCols(c), e.F.leftCols(c), true)) { out.count("prefix_bitwise"); continue; }
+                    bool ok = computedSide && (long) s.size() >= c; double worst = 0; long wj = -1;
+                    for (long j = 0; j < c && ok; j++) for (long i = 0; i < F.rows(); i++) {
+                        const double rs = isU ? A.row(i).cwiseAbs().sum() : A.col(i).cwiseAbs().sum(), df = std::fabs(F(i, j) - e.F(i, j));
+                        if (df > worst) { worst = df; wj = j; }
+                        if (!(s[j] > 0.0) || !(df <= 16.0 * (double) ((isU ? n : m) + 2) * 2.220446049250313e-16 * rs / s[j] + 1e-300)) ok = false;
+                    }
+                    if (ok) { out.count("prefix_within_product_rounding"); continue; }
+                    std::ostringstream w; w << "matrix_" << o.op << "(" << o.k << ") and the earlier matrix_" << e.side << "(" << e.k << ") of the same compute() disagree on their " << c << " common leading columns (max |diff| = " << worst << " in column " << wj << "): the answers do not describe ONE decomposition";
+                    out.fail("svd-accessor-consistency", w.str(), rj(oi)); break;
+                }
+            }
+            // factor identities for every (k_u, k_v) pair requested since the latest compute(), on the matrices AS RETURNED
+            {
+                long lead = 0; while (lead < s.size() && std::isfinite(s[lead]) && (LD) s[lead] > 1e-4L * nA) lead++;
+                for (const Seen& e : seen) if (e.side != o.op) {
+                    const long kk = std::min(std::min(F.cols(), e.F.cols()), lead); if (kk == 0) continue;
+                    out.count("oracle_pair_identities"); std::string w;
+                    if (!grade_pair(A, isU ? F : e.F, isU ? e.F : F, s, kk, nA, last_tol, w)) { out.fail("svd-factors", "matrix_U(" + str(isU ? o.k : e.k) + ") with matrix_V(" + str(isU ? e.k : o.k) + ") as returned: " + w, rj(oi)); break; }
+                }
+            }
+            seen.push_back(Seen{o.op, o.k, F});
+            if (pure) continue;
             // (until the fix d08c57f the identities below were skipped when the cache predated the last compute(): they failed as a consequence of F4)
             // factor identities on the columns whose singular value exceeds 1e-4 ||A||
-            Vec s = svd.singular_values(); long kk = 0; while (kk < F.cols() && kk < s.size() && std::isfinite(s[kk]) && (LD) s[kk] > 1e-4L * nA) kk++;
+            long kk = 0; while (kk < F.cols() && kk < s.size() && std::isfinite(s[kk]) && (LD) s[kk] > 1e-4L * nA) kk++;
             if (kk == 0) continue;
             Mat U, V;
             try { U = svd.matrix_U(kk); V = svd.matrix_V(kk); }
             catch (const EigenAssertError& e) { out.fail(stale ? "svd-stale-cache" : "svd-assert", "matrix_U(" + str(kk) + ") / matrix_V(" + str(kk) + ") hit an Eigen assertion (undefined behaviour under NDEBUG): m_nconv=" + str(AX::nconv(svd)) + ", cached columns=" + str(AX::ecols(svd)) + " [" + std::string(e.what()).substr(0, 80) + "]", rj(oi)); continue; }
             if (U.cols() != kk || V.cols() != kk) continue;
             out.count("oracle_identities");
-            LMat Ul = U.cast<LD>(), Vl = V.cast<LD>(), Al = A.cast<LD>(); LMat Sl = LMat::Zero(kk, kk); for (long i = 0; i < kk; i++) Sl(i, i) = s[i];
-            LD kappa = nA / (LD) s[kk - 1]; LD tt = (LD) last_tol + 1e-13L;
-            LD eU = maxabs(Ul.transpose() * Ul - LMat::Identity(kk, kk)), eV = maxabs(Vl.transpose() * Vl - LMat::Identity(kk, kk));
-            LD eAV = maxabs(Al * Vl - Ul * Sl), eAtU = maxabs(Al.transpose() * Ul - Vl * Sl);
-            LD bOrth = 100.0L * tt * kappa * kappa, bRes = 100.0L * tt * kappa * nA;
-            if (!(eU <= bOrth) || !(eV <= bOrth) || !(eAV <= bRes) || !(eAtU <= bRes)) {
-                std::ostringstream w; w << "factor identities violated for k=" << kk << ": |U'U-I|=" << (double) eU << " |V'V-I|=" << (double) eV << " (bound " << (double) bOrth << ") |AV-US|=" << (double) eAV << " |A'U-VS|=" << (double) eAtU << " (bound " << (double) bRes << "), tol=" << last_tol << " ||A||=" << (double) nA << " cond=" << (double) kappa;
-                out.fail("svd-factors", w.str(), rj(oi));
-            }
+            { std::string w; if (!grade_pair(A, U, V, s, kk, nA, last_tol, w)) out.fail("svd-factors", w, rj(oi)); }
         }
     }
     (void) ncv_eff;
@@ -345,14 +534,16 @@ static std::vector<OpSpec> gen_ops(Rng& r, long ncomp, bool allow_recompute) {
 }
 
 template <class F> static void with_variant(int v, F f) { }
-static void run_variant(int v, const CaseId& cid, const Gen& g, long ncomp, long ncv, const std::vector<OpSpec>& ops, Out& out, bool corr, int vals) {
+static void run_variant(int v, const CaseId& cid, const Gen& g, long ncomp, long ncv, const std::vector<OpSpec>& ops, Out& out, bool corr, int vals, int view = 0) {
     switch (v) {
-    case 0: run_history<Mat>(cid, g, ncomp, ncv, ops, out, corr, vals); break;
-    case 1: run_history<RMat>(cid, g, ncomp, ncv, ops, out, corr, vals); break;
-    case 2: run_history<SpMat>(cid, g, ncomp, ncv, ops, out, corr, vals); break;
-    default: run_history<RSpMat>(cid, g, ncomp, ncv, ops, out, corr, vals); break;
+    case 0: run_history<Mat>(cid, g, ncomp, ncv, ops, out, corr, vals, view); break;
+    case 1: run_history<RMat>(cid, g, ncomp, ncv, ops, out, corr, vals, view); break;
+    case 2: run_history<SpMat>(cid, g, ncomp, ncv, ops, out, corr, vals, view); break;
+    default: run_history<RSpMat>(cid, g, ncomp, ncv, ops, out, corr, vals, view); break;
     }
 }
+// which view a case of an older stream uses: drawn from its OWN generator so that the inputs of streams 1-7 stay what they were
+static int pick_view(const CaseId& cid, double p) { Rng q(cid.seed, 190 + (uint64_t) cid.stream, (uint64_t) cid.idx); return q.coin(p) ? q.range(1, NVIEWS - 1) : 0; }
 
 static void shape(Rng& r, int maxd, int& m, int& n) {
     int a = r.range(2, r.coin(0.7) ? std::min(maxd, 9) : maxd), b = a + r.range(1, r.coin(0.7) ? 4 : std::max(4, maxd / 2));
@@ -369,12 +560,21 @@ static void case_history(const CaseId& cid, Out& out) {
     int variant = r.range(0, 3);
     std::vector<OpSpec> ops = gen_ops(r, ncomp, true);
     out.count(std::string("shape_") + (m > n ? "tall" : (m < n ? "wide" : "square"))); out.count("kind_" + g.kind); out.count(std::string("variant_") + str(variant));
-    run_variant(variant, cid, g, ncomp, ncv, ops, out, true, (!g.rankdef && kind != 1) ? 1 : 0);
+    run_variant(variant, cid, g, ncomp, ncv, ops, out, true, (!g.rankdef && kind != 1) ? 1 : 0, pick_view(cid, 0.35));
 }
 
 // stream 2: operator classes
-template <class MT> static void op_case(const Mat& A, const Vec& x, bool tall, Out& out) {
+template <class MT> static void op_case(const Mat& A, const Vec& x, bool tall, Out& out, int view, Rng& vq, const CaseId& cid) {
     MT Am = Conv<MT>::make(A); Vec y(x.size()); long dim;
+    if (view) {
+        // the same operator constructed from a view of the matrix: bit for bit the owning matrix's answer (explicit zeros: up to the sign of zero), storage untouched
+        typename HolderOf<MT>::type H(A, view, vq); Vec yo(x.size()), yv(x.size());
+        if (tall) { SVDTallMatOp<double, MT> o1(Am), o2(H.ref()); o1.perform_op(x.data(), yo.data()); o2.perform_op(x.data(), yv.data()); o2.perform_op(x.data(), yv.data()); }
+        else { SVDWideMatOp<double, MT> o1(Am), o2(H.ref()); o1.perform_op(x.data(), yo.data()); o2.perform_op(x.data(), yv.data()); o2.perform_op(x.data(), yv.data()); }
+        out.count("oracle_op_view"); out.count(std::string("opview_") + Conv<MT>::name() + H.suffix());
+        if (!same_answer(yo, yv, H.signed_zero_only()) || !H.intact())
+            out.fail("svd-op-view", std::string("perform_op through a view (") + Conv<MT>::name() + H.suffix() + ") differs from the owning matrix, or the caller's storage was modified", "{\"harness\":\"c16\",\"seed\":" + str(cid.seed) + ",\"stream\":2,\"idx\":" + str(cid.idx) + ",\"tier\":\"" + cid.tier + "\",\"op\":\"perform_op\",\"view\":" + str(view) + "}");
+    }
     if (tall) { SVDTallMatOp<double, MT> op(Am); op.perform_op(x.data(), y.data()); dim = op.rows(); if (op.cols() != dim) out.fail("svd-op", "rows() != cols()", "{\"harness\":\"c16\"}"); }
     else { SVDWideMatOp<double, MT> op(Am); op.perform_op(x.data(), y.data()); dim = op.rows(); if (op.cols() != dim) out.fail("svd-op", "rows() != cols()", "{\"harness\":\"c16\"}"); }
     // explicit-loop result of the same product (bit-comparable with the model); the real result must agree with it componentwise
@@ -397,7 +597,8 @@ static void case_op(const CaseId& cid, Out& out) {
     Vec x(tall ? n : m); for (long i = 0; i < x.size(); i++) x[i] = r.coin(0.1) ? 0.0 : r.sym();
     int v = r.range(0, 3); out.count(std::string("opcase_") + (tall ? "tall" : "wide") + "_v" + str(v));
     { std::ofstream lc(out.dir + "/lastcase.txt"); lc << "{\"harness\":\"c16\",\"seed\":" << cid.seed << ",\"stream\":2,\"idx\":" << cid.idx << "}"; }
-    switch (v) { case 0: op_case<Mat>(g.A, x, tall, out); break; case 1: op_case<RMat>(g.A, x, tall, out); break; case 2: op_case<SpMat>(g.A, x, tall, out); break; default: op_case<RSpMat>(g.A, x, tall, out); }
+    Rng vq(cid.seed, 172, cid.idx); const int view = vq.coin(0.5) ? vq.range(1, NVIEWS - 1) : 0;      // own generator: the inputs of this stream stay what they were
+    switch (v) { case 0: op_case<Mat>(g.A, x, tall, out, view, vq, cid); break; case 1: op_case<RMat>(g.A, x, tall, out, view, vq, cid); break; case 2: op_case<SpMat>(g.A, x, tall, out, view, vq, cid); break; default: op_case<RSpMat>(g.A, x, tall, out, view, vq, cid); }
 }
 
 // stream 3: rank-deficient inputs, requesting as many values as the rank or more: finiteness / non-negativity / order / counts
@@ -409,7 +610,7 @@ static void case_rankdef(const CaseId& cid, Out& out) {
     long ncomp = r.range(std::max(1, d / 2), d - 1); long ncv = r.coin(0.5) ? d : r.range((int) ncomp + 1, d);
     std::vector<OpSpec> ops = {OpSpec{'C', 0, r.pick(std::vector<long>{1000, 1000, 50, 5}), r.pick(std::vector<double>{1e-10, 1e-10, 1e-6, 1e-14})}, OpSpec{'S', 0, 0, 0}, OpSpec{'U', ncomp, 0, 0}, OpSpec{'V', ncomp, 0, 0}};
     out.count("rankdef_cases"); out.count("kind_" + g.kind);
-    run_variant(r.range(0, 3), cid, g, ncomp, ncv, ops, out, cid.idx % 4 == 0, 0);
+    run_variant(r.range(0, 3), cid, g, ncomp, ncv, ops, out, cid.idx % 4 == 0, 0, pick_view(cid, 0.25));
 }
 
 // stream 4: fixed witnesses of the cache defect F4 (repaired by d08c57f: these histories must now be silent): compute; matrix_V; compute with other maxit/tol; matrix_V
@@ -435,7 +636,7 @@ static void case_scaled(const CaseId& cid, Out& out) {
     long ncomp = r.range(1, std::max(1, std::min(d - 1, 5))); long ncv = r.coin(0.4) ? d : r.range((int) ncomp + 1, d);
     std::vector<OpSpec> ops = {OpSpec{'C', 0, 1000, r.pick(std::vector<double>{1e-10, 1e-8, 1e-12})}, OpSpec{'S', 0, 0, 0}, OpSpec{'U', ncomp, 0, 0}, OpSpec{'V', ncomp, 0, 0}};
     std::ostringstream k; k << "scaled_cases_" << sc; out.count(k.str());
-    run_variant(r.range(0, 3), cid, g, ncomp, ncv, ops, out, cid.idx % 4 == 0, 1);
+    run_variant(r.range(0, 3), cid, g, ncomp, ncv, ops, out, cid.idx % 4 == 0, 1, pick_view(cid, 0.25));
 }
 
 // stream 6: runs that END partially converged (NotConverging): prescribed singular spectra with a tight cluster (relative gap 1e-9..1e-6) next to
@@ -499,7 +700,7 @@ static void case_cluster(const CaseId& cid, Out& out) {
     out.count("cluster_cases"); out.count("cluster_family_" + c.fam); out.count(std::string("cluster_shape_") + (m > n ? "tall" : (m < n ? "wide" : "square"))); out.count(std::string("cluster_variant_") + (variant == 0 ? "dense-col" : variant == 1 ? "dense-row" : variant == 2 ? "sparse-col" : "sparse-row"));
     out.count("cluster_ncv_minus_ncomp_" + str(ncv - ncomp));
     if (c.delta >= 0) { std::ostringstream k; k << "cluster_lead_orth_delta_" << c.delta; out.count(k.str()); if (c.lead_on_start <= 2.0 * c.delta + 1e-12) out.count("cluster_lead_orth_verified"); }
-    run_variant(variant, cid, c.g, ncomp, ncv, ops, out, cid.idx % 2 == 0, 2);
+    run_variant(variant, cid, c.g, ncomp, ncv, ops, out, cid.idx % 2 == 0, 2, pick_view(cid, 0.25));
 }
 
 // stream 7: fixed witnesses (independent of VERIF_SEED and tier) of partial convergence with a hole / of a Ritz reordering at the last restart
@@ -519,10 +720,205 @@ static void case_partial_witness(const CaseId& cid, Out& out) {
     run_variant((int) ((cid.idx / 6) % 4), cid, g, ncomp, ncv, ops, out, cid.idx < 2, 2);
 }
 
-static void dispatch(const CaseId& c, Out& out) {
-    switch (c.stream) { case 1: case_history(c, out); break; case 2: case_op(c, out); break; case 3: case_rankdef(c, out); break; case 4: case_f4(c, out); break; case 5: case_scaled(c, out); break; case 6: case_cluster(c, out); break; case 7: case_partial_witness(c, out); break; default: break; }
+// stream 8: accessor sequences on ONE decomposition, no accessor call of the harness's own in between ("pure"): per compute() a sequence of
+// matrix_U(k) / matrix_V(k) / singular_values() with k rising and falling (k1 < k2 > k3), k = 0, k above the converged count (ncomp + 1, ncomp + 2, 1000),
+// the first call of an epoch being U or V with a small or a large k; two or three compute() per object (the later ones with other maxit / tol, some
+// ending partly converged).  Graded by run_history: counts; every answer bitwise what a fresh object answers to that single call; common leading
+// columns of all answers of one compute(); the factor identities for every (k_u, k_v) pair requested.  All of it also goes to the correspondence.
+static void case_accseq(const CaseId& cid, Out& out) {
+    Rng r(cid.seed, 168, cid.idx); const bool th = cid.tier == "thorough";
+    int m, n; shape(r, th ? 24 : 12, m, n); if (std::min(m, n) < 3) { m += 2; n += 2; } const int d = std::min(m, n);
+    Gen g = gen_matrix(r, m, n, r.pick(std::vector<int>{0, 0, 2, 3}));      // random, graded, and rank-deficient integer (zero singular values: zero columns on the computed side)
+    const long ncomp = r.range(2, std::max(2, std::min(d - 1, 6))); const long ncv = r.coin(0.4) ? d : r.range((int) ncomp + 1, d);
+    std::vector<OpSpec> ops; const int nc = r.range(2, 3);
+    for (int c = 0; c < nc; c++) {
+        ops.push_back(OpSpec{'C', 0, c == 0 ? r.pick(std::vector<long>{1000, 1000, 1000, 2}) : r.pick(std::vector<long>{1000, 1000, 3, 2, 1}), r.pick(std::vector<double>{1e-10, 1e-10, 1e-8, 1e-12, 1e-4})});
+        const int len = r.range(5, 9); const int pattern = r.range(0, 3);
+        std::vector<long> ks;
+        for (int a = 0; a < len; a++) {
+            long k;
+            switch (pattern) {
+            case 0: { const long up[] = {1, ncomp, 0, ncomp + 2, 2, 1000, ncomp - 1, 1, ncomp}; k = up[a % 9]; break; }             // small, large, zero, above, ...
+            case 1: { const long dn[] = {ncomp, 1, ncomp + 1, 0, ncomp - 1, ncomp, 2, 1000, 1}; k = dn[a % 9]; break; }             // large first
+            case 2: k = (a % 3 == 0) ? (long) r.range(0, 1) : (a % 3 == 1 ? ncomp + (long) r.range(0, 2) : (long) r.range(1, (int) ncomp)); break;   // k1 < k2 > k3 repeated
+            default: k = (long) r.range(0, (int) ncomp + 2);
+            }
+            ks.push_back(k);
+        }
+        const int order = r.range(0, 3);      // which side goes first / how they alternate
+        for (int a = 0; a < len; a++) {
+            char side = (order == 0) ? (a % 2 ? 'V' : 'U') : (order == 1) ? (a % 2 ? 'U' : 'V') : (order == 2) ? (a < len / 2 ? 'U' : 'V') : (r.coin() ? 'U' : 'V');
+            ops.push_back(OpSpec{side, ks[(size_t) a], 0, 0});
+            if (r.coin(0.2)) ops.push_back(OpSpec{'S', 0, 0, 0});
+        }
+        ops.push_back(OpSpec{'S', 0, 0, 0});
+    }
+    const int variant = r.range(0, 3), view = r.coin(0.4) ? r.range(1, NVIEWS - 1) : 0;
+    out.count("accseq_cases"); out.count(std::string("accseq_shape_") + (m > n ? "tall" : (m < n ? "wide" : "square"))); out.count("kind_" + g.kind); out.count("accseq_computes_" + str(nc));
+    run_variant(variant, cid, g, ncomp, ncv, ops, out, true, 4 | ((!g.rankdef) ? 1 : 0), view);
 }
 
+// stream 9: configuration sweep: the guards at their boundaries.  Shapes 1 x n, n x 1, 1 x 1 (no legal (ncomp, ncv) exists: the constructor must throw
+// std::invalid_argument), 2 x 2 (only ncomp = 1, ncv = 2), 2 x n, n x 2, small square / tall / wide; ncomp in {1, min(m,n) - 1} and the illegal 0, min(m,n);
+// ncv in {ncomp + 1, min(m,n)} and the illegal ncomp, min(m,n) + 2; (maxit, tol) in {0, 1, 200} x {0, 1, 1e-10}.  Legal configurations run
+// compute; S; U(ncomp); V(ncomp); U(1); V(0); S through run_history (the property's predicates on whatever is returned, and the correspondence).
+static const int CFG_SHAPES[][2] = {{1, 5}, {5, 1}, {1, 1}, {2, 2}, {2, 3}, {3, 2}, {2, 7}, {7, 2}, {3, 3}, {5, 5}, {6, 4}, {4, 6}, {9, 5}, {5, 9}};
+static const long CFG_MAXIT[] = {0, 1, 200}; static const double CFG_TOL[] = {0.0, 1.0, 1e-10};
+template <class MT> static bool ctor_outcome(const Mat& A, long ncomp, long ncv, std::string& what) {
+    MT Am = Conv<MT>::make(A);
+    try { PartialSVDSolver<MT> s(Am, ncomp, ncv); what = "constructed"; return true; }
+    catch (const std::invalid_argument&) { what = "std::invalid_argument"; return false; }
+    catch (const EigenAssertError& e) { what = std::string("eigen-assert ") + e.what(); return false; }
+    catch (const std::exception& e) { what = std::string("exception ") + e.what(); return false; }
+}
+static long config_count() { return (long) (sizeof(CFG_SHAPES) / sizeof(CFG_SHAPES[0])) * 4 * 4; }
+static void case_config(const CaseId& cid, Out& out) {
+    const long nsh = (long) (sizeof(CFG_SHAPES) / sizeof(CFG_SHAPES[0]));
+    const long rep = cid.idx / (nsh * 16), w = cid.idx % (nsh * 16);
+    const int m = CFG_SHAPES[w / 16][0], n = CFG_SHAPES[w / 16][1], d = std::min(m, n); const int ci = (int) ((w / 4) % 4), vi = (int) (w % 4);
+    const long ncomp = ci == 0 ? 1 : (ci == 1 ? d - 1 : (ci == 2 ? 0 : d));
+    const long ncv = vi == 0 ? ncomp + 1 : (vi == 1 ? d : (vi == 2 ? ncomp : d + 2));
+    if ((ci == 1 && d - 1 == 1) || (vi == 1 && d == ncomp + 1)) { out.count("config_duplicates_skipped"); return; }     // the same configuration as ci = 0 / vi = 0
+    Rng r(cid.seed, 169, (uint64_t) (w / 16) + 1000 * (uint64_t) rep);
+    Gen g = gen_matrix(r, m, n, 0); g.kind = "config-random";
+    const bool legal = (ncomp >= 1 && ncomp <= d - 1 && ncv > ncomp && ncv <= d);
+    const int variant = (int) ((w + rep) % 4);
+    { std::ofstream lc(out.dir + "/lastcase.txt"); lc << "{\"harness\":\"c16\",\"seed\":" << cid.seed << ",\"stream\":9,\"idx\":" << cid.idx << ",\"tier\":\"" << cid.tier << "\"}"; }
+    std::string what; bool built;
+    switch (variant) { case 0: built = ctor_outcome<Mat>(g.A, ncomp, ncv, what); break; case 1: built = ctor_outcome<RMat>(g.A, ncomp, ncv, what); break; case 2: built = ctor_outcome<SpMat>(g.A, ncomp, ncv, what); break; default: built = ctor_outcome<RSpMat>(g.A, ncomp, ncv, what); }
+    out.count("oracle_config_ctor"); out.count(legal ? "config_legal" : "config_illegal"); out.count(std::string("config_shape_") + str(m) + "x" + str(n));
+    if (built != legal || (!legal && what != "std::invalid_argument")) {
+        std::ostringstream o; o << "{\"harness\":\"c16\",\"seed\":" << cid.seed << ",\"stream\":9,\"idx\":" << cid.idx << ",\"tier\":\"" << cid.tier << "\",\"m\":" << m << ",\"n\":" << n << ",\"ncomp\":" << ncomp << ",\"ncv\":" << ncv << ",\"variant\":" << variant << "}";
+        out.fail("svd-config-ctor", "PartialSVDSolver(" + str(m) + "x" + str(n) + ", ncomp=" + str(ncomp) + ", ncv=" + str(ncv) + ") " + (legal ? "is a legal configuration (1 <= ncomp <= min(m,n)-1, ncomp < ncv <= min(m,n)) but the constructor ended with " : "is not a legal configuration but the constructor ended with ") + what, o.str());
+    }
+    if (!legal || !built) return;
+    for (int mi = 0; mi < 3; mi++) for (int ti = 0; ti < 3; ti++) {
+        std::vector<OpSpec> ops = {OpSpec{'C', 0, CFG_MAXIT[mi], CFG_TOL[ti]}, OpSpec{'S', 0, 0, 0}, OpSpec{'U', ncomp, 0, 0}, OpSpec{'V', ncomp, 0, 0}, OpSpec{'U', 1, 0, 0}, OpSpec{'V', 0, 0, 0}, OpSpec{'S', 0, 0, 0}};
+        if ((mi + ti) % 2 == 0) { ops.push_back(OpSpec{'C', 0, CFG_MAXIT[(mi + 1) % 3], CFG_TOL[(ti + 2) % 3]}); ops.push_back(OpSpec{'V', ncomp + 1, 0, 0}); ops.push_back(OpSpec{'U', ncomp, 0, 0}); ops.push_back(OpSpec{'S', 0, 0, 0}); }
+        std::ostringstream k; k << "config_maxit" << CFG_MAXIT[mi] << "_tol" << CFG_TOL[ti]; out.count(k.str());
+        out.count(ncomp == 1 ? "config_ncomp_1" : "config_ncomp_dminus1"); out.count(ncv == d ? "config_ncv_full" : "config_ncv_ncomp_plus_1");
+        const int view = ((w + mi + 2 * ti + rep) % 3 == 0) ? (int) (1 + (w + mi + ti) % (NVIEWS - 1)) : 0;
+        run_variant(variant, cid, g, ncomp, ncv, ops, out, true, 1, view);
+    }
+}
+
+// stream 10: view EXPRESSIONS handed directly to the constructor (the way a caller writes it: the Ref the constructor binds is a temporary that
+// dies at once; legal exactly when the binding needs no evaluation) and sparse matrices with StorageIndex = long.  Every answer of
+// compute(1000,1e-10); S; U(ncomp); V(ncomp); compute(2,1e-6); S; V(ncomp+1); U(1) is compared bit for bit with the OWNING matrix of the same
+// storage order (long index: with the int-index matrix; explicit zeros: up to the sign of zero); handle and storage as in run_history.
+struct Answers { std::vector<long> rets; std::vector<Mat> mats; std::string thrown; };
+template <class MT, class Arg> static Answers direct_answers(const Arg& arg, long ncomp, long ncv, bool* direct, const std::function<bool(const Eigen::Ref<const MT>&)>& is_direct) {
+    Answers a; PartialSVDSolver<MT> s(arg, ncomp, ncv);
+    if (direct) *direct = is_direct(AX::matref(s));
+    try {
+        a.rets.push_back(s.compute(1000, 1e-10)); a.mats.push_back(s.singular_values()); a.mats.push_back(s.matrix_U(ncomp)); a.mats.push_back(s.matrix_V(ncomp));
+        a.rets.push_back(s.compute(2, 1e-6)); a.mats.push_back(s.singular_values()); a.mats.push_back(s.matrix_V(ncomp + 1)); a.mats.push_back(s.matrix_U(1));
+    } catch (const std::exception& e) { a.rets.push_back(-99); a.thrown = e.what(); }      // an exception is part of the answer (the owning matrix does not throw)
+    return a;
+}
+// the caller changes the matrix behind the handle between two compute() calls: the second compute() and the accessors after it must describe the
+// NEW matrix (bit for bit what a fresh solver on the new matrix returns): nothing but the handle, the sizes and the scratch vector is kept of the matrix
+template <class MT, class Change> static void changed_behind(const Mat& A, const Mat& B, long ncomp, long ncv, Change change, const std::string& name, const CaseId& cid, Out& out) {
+    MT M1 = Conv<MT>::make(A); PartialSVDSolver<MT> s(M1, ncomp, ncv);
+    Answers a, b;
+    try { s.compute(1000, 1e-10); (void) s.matrix_U(ncomp); (void) s.matrix_V(1);
+          change(M1);
+          a.rets.push_back(s.compute(1000, 1e-10)); a.mats.push_back(s.singular_values()); a.mats.push_back(s.matrix_V(ncomp)); a.mats.push_back(s.matrix_U(ncomp)); }
+    catch (const std::exception& e) { a.rets.push_back(-99); a.thrown = e.what(); }
+    MT M2 = Conv<MT>::make(B); PartialSVDSolver<MT> f(M2, ncomp, ncv);
+    try { b.rets.push_back(f.compute(1000, 1e-10)); b.mats.push_back(f.singular_values()); b.mats.push_back(f.matrix_V(ncomp)); b.mats.push_back(f.matrix_U(ncomp)); }
+    catch (const std::exception& e) { b.rets.push_back(-99); b.thrown = e.what(); }
+    out.count("oracle_changed_behind_handle"); out.count("viewdirect_" + name);
+    bool same = a.rets == b.rets && a.mats.size() == b.mats.size(); for (size_t i = 0; same && i < a.mats.size(); i++) same = same_answer(a.mats[i], b.mats[i], false);
+    if (!same) { std::ostringstream o; o << "{\"harness\":\"c16\",\"seed\":" << cid.seed << ",\"stream\":10,\"idx\":" << cid.idx << ",\"tier\":\"" << cid.tier << "\",\"view_name\":\"" << name << "\"}";
+        out.fail("svd-latest", name + ": after the caller changed the matrix behind the solver's handle, compute(); S; V; U do not describe the new matrix (differ from a fresh solver on it)" + (a.thrown.empty() ? "" : "; exception: " + a.thrown), o.str()); }
+}
+static void compare_answers(const Answers& a, const Answers& b, bool zsign, const std::string& name, const CaseId& cid, Out& out) {
+    out.count("oracle_view_direct"); out.count("viewdirect_" + name);
+    bool same = a.rets == b.rets && a.mats.size() == b.mats.size(); double md = 0; size_t at = 0;
+    for (size_t i = 0; same && i < a.mats.size(); i++) { double d1 = 0; if (!same_answer(a.mats[i], b.mats[i], zsign, &d1)) { same = false; at = i; md = d1; } }
+    if (!same) { std::ostringstream w; w << "matrix passed as " << name << ": answer #" << at << " of compute(1000,1e-10); S; U; V; compute(2,1e-6); S; V; U differs from the owning matrix (max |diff| = " << md << ")" << (a.thrown.empty() ? "" : "; exception: " + a.thrown) << (b.thrown.empty() ? "" : "; the owning matrix threw: " + b.thrown);
+        std::ostringstream o; o << "{\"harness\":\"c16\",\"seed\":" << cid.seed << ",\"stream\":10,\"idx\":" << cid.idx << ",\"tier\":\"" << cid.tier << "\",\"view_name\":\"" << name << "\"}"; out.fail("svd-view", w.str(), o.str()); }
+}
+static void case_view_direct(const CaseId& cid, Out& out) {
+    Rng r(cid.seed, 170, cid.idx); const bool th = cid.tier == "thorough";
+    int m, n; shape(r, th ? 30 : 12, m, n); if (std::min(m, n) < 3) { m += 2; n += 2; } const int d = std::min(m, n);
+    Gen g = gen_matrix(r, m, n, r.pick(std::vector<int>{0, 1, 1, 2}));
+    const long ncomp = r.range(1, std::max(1, std::min(d - 1, 4))); const long ncv = r.coin(0.4) ? d : r.range((int) ncomp + 1, d);
+    const Mat& A = g.A; const int which = (int) (cid.idx % 8);
+    { std::ofstream lc(out.dir + "/lastcase.txt"); lc << "{\"harness\":\"c16\",\"seed\":" << cid.seed << ",\"stream\":10,\"idx\":" << cid.idx << ",\"tier\":\"" << cid.tier << "\"}"; }
+    auto rp = [&](const std::string& nm) { std::ostringstream o; o << "{\"harness\":\"c16\",\"seed\":" << cid.seed << ",\"stream\":10,\"idx\":" << cid.idx << ",\"tier\":\"" << cid.tier << "\",\"view_name\":\"" << nm << "\"}"; return o.str(); };
+    auto verdict = [&](bool direct, bool intact, const std::string& nm) {
+        out.count("oracle_view_handle"); out.count("oracle_view_storage_intact");
+        if (!direct) out.fail("svd-view-handle", "matrix passed as " + nm + ": the solver's handle does not point into the caller's storage", rp(nm));
+        if (!intact) out.fail("svd-view-canary", "matrix passed as " + nm + ": the caller's storage was modified", rp(nm));
+    };
+    Rng q(cid.seed, 171, cid.idx);
+    switch (which) {
+    case 0: case 1: {   // dense column-major: block / Map / transposed row-major, the expression itself as the constructor argument
+        Mat own = A; std::function<bool(const Eigen::Ref<const Mat>&)> any = [](const Eigen::Ref<const Mat>&) { return true; };
+        Answers base = direct_answers<Mat>(own, ncomp, ncv, nullptr, any);
+        { DenseHolder<Mat> H(A, 1, q); const double* e = H.expect; const long os = H.expect_os; bool dir = false;
+          const long p = (e - H.big.data()) % H.big.outerStride(), c = (e - H.big.data()) / H.big.outerStride();
+          Answers a = direct_answers<Mat>(H.big.block(p, c, m, n), ncomp, ncv, &dir, [&](const Eigen::Ref<const Mat>& h) { return h.data() == e && h.outerStride() == os; });
+          compare_answers(a, base, false, "dense-col block expression", cid, out); verdict(dir, H.intact(), "dense-col block expression"); }
+        { DenseHolder<Mat> H(A, 2, q); const double* e = H.expect; const long os = H.expect_os; bool dir = false;
+          Eigen::Map<const Mat, 0, Eigen::OuterStride<>> mp(e, m, n, Eigen::OuterStride<>(os));
+          Answers a = direct_answers<Mat>(mp, ncomp, ncv, &dir, [&](const Eigen::Ref<const Mat>& h) { return h.data() == e && h.outerStride() == os; });
+          compare_answers(a, base, false, "dense-col Map<OuterStride>", cid, out); verdict(dir, H.intact(), "dense-col Map<OuterStride>"); }
+        { RMat R = A.transpose(); bool dir = false; Mat keep = R;
+          Answers a = direct_answers<Mat>(R.transpose(), ncomp, ncv, &dir, [&](const Eigen::Ref<const Mat>& h) { return h.data() == R.data(); });
+          compare_answers(a, base, false, "dense-col transpose-of-row-major expression", cid, out); verdict(dir, same_answer(Mat(R), keep, false), "dense-col transpose-of-row-major expression"); }
+        { Gen g2 = gen_matrix(q, m, n, 0); changed_behind<Mat>(A, g2.A, ncomp, ncv, [&](Mat& M) { M = g2.A; }, "dense-col matrix changed behind the handle", cid, out); }
+        break; }
+    case 2: case 3: {   // dense row-major
+        RMat own = A; std::function<bool(const Eigen::Ref<const RMat>&)> any = [](const Eigen::Ref<const RMat>&) { return true; };
+        Answers base = direct_answers<RMat>(own, ncomp, ncv, nullptr, any);
+        { DenseHolder<RMat> H(A, 1, q); const double* e = H.expect; const long os = H.expect_os; bool dir = false;
+          const long p = (e - H.big.data()) / H.big.outerStride(), c = (e - H.big.data()) % H.big.outerStride();
+          Answers a = direct_answers<RMat>(H.big.block(p, c, m, n), ncomp, ncv, &dir, [&](const Eigen::Ref<const RMat>& h) { return h.data() == e && h.outerStride() == os; });
+          compare_answers(a, base, false, "dense-row block expression", cid, out); verdict(dir, H.intact(), "dense-row block expression"); }
+        { Mat C = A.transpose(); bool dir = false; Mat keep = C;
+          Answers a = direct_answers<RMat>(C.transpose(), ncomp, ncv, &dir, [&](const Eigen::Ref<const RMat>& h) { return h.data() == C.data(); });
+          compare_answers(a, base, false, "dense-row transpose-of-column-major expression", cid, out); verdict(dir, same_answer(C, keep, false), "dense-row transpose-of-column-major expression"); }
+        break; }
+    case 4: case 5: {   // sparse column-major: inner-panel expression, uncompressed lvalue, StorageIndex = long
+        SpMat own = Conv<SpMat>::make(A); std::function<bool(const Eigen::Ref<const SpMat>&)> any = [](const Eigen::Ref<const SpMat>&) { return true; };
+        Answers base = direct_answers<SpMat>(own, ncomp, ncv, nullptr, any);
+        { SparseHolder<SpMat> H(A, 4, q); bool dir = false;
+          Answers a = direct_answers<SpMat>(H.P.middleCols(H.pre, n), ncomp, ncv, &dir, [&](const Eigen::Ref<const SpMat>& h) { return H.direct(h); });
+          compare_answers(a, base, false, "sparse-col middleCols expression", cid, out); verdict(dir, H.intact(), "sparse-col middleCols expression"); }
+        { Mat B = A; for (long j = 0; j < B.cols(); j++) for (long i = 0; i < B.rows(); i++) if (B(i, j) != 0.0) B(i, j) = B(i, j) * (1.0 + 0.5 * q.unit()) + 0.25;      // same pattern, new values (written in place)
+          changed_behind<SpMat>(A, B, ncomp, ncv, [&](SpMat& M) { for (long j = 0; j < M.outerSize(); j++) for (SpMat::InnerIterator it(M, j); it; ++it) it.valueRef() = B(it.row(), it.col()); }, "sparse-col values changed behind the handle", cid, out); }
+        { SparseHolder<SpMatL> H(A, (int) q.range(0, 3), q); bool dir = false; std::function<bool(const Eigen::Ref<const SpMatL>&)> chk = [&](const Eigen::Ref<const SpMatL>& h) { return H.direct(h); };
+          Answers a = direct_answers<SpMatL>(H.P, ncomp, ncv, &dir, chk);
+          compare_answers(a, base, H.signed_zero_only(), "sparse-col StorageIndex=long" + H.suffix(), cid, out); verdict(dir, H.intact(), "sparse-col StorageIndex=long" + H.suffix()); }
+        break; }
+    default: {          // sparse row-major
+        RSpMat own = Conv<RSpMat>::make(A); std::function<bool(const Eigen::Ref<const RSpMat>&)> any = [](const Eigen::Ref<const RSpMat>&) { return true; };
+        Answers base = direct_answers<RSpMat>(own, ncomp, ncv, nullptr, any);
+        { SparseHolder<RSpMat> H(A, 4, q); bool dir = false;
+          Answers a = direct_answers<RSpMat>(H.P.middleRows(H.pre, m), ncomp, ncv, &dir, [&](const Eigen::Ref<const RSpMat>& h) { return H.direct(h); });
+          compare_answers(a, base, false, "sparse-row middleRows expression", cid, out); verdict(dir, H.intact(), "sparse-row middleRows expression"); }
+        { SparseHolder<RSpMatL> H(A, (int) q.range(0, 3), q); bool dir = false; std::function<bool(const Eigen::Ref<const RSpMatL>&)> chk = [&](const Eigen::Ref<const RSpMatL>& h) { return H.direct(h); };
+          Answers a = direct_answers<RSpMatL>(H.P, ncomp, ncv, &dir, chk);
+          compare_answers(a, base, H.signed_zero_only(), "sparse-row StorageIndex=long" + H.suffix(), cid, out); verdict(dir, H.intact(), "sparse-row StorageIndex=long" + H.suffix()); }
+        break; }
+    }
+}
+
+static void dispatch(const CaseId& c, Out& out) {
+    switch (c.stream) { case 1: case_history(c, out); break; case 2: case_op(c, out); break; case 3: case_rankdef(c, out); break; case 4: case_f4(c, out); break; case 5: case_scaled(c, out); break; case 6: case_cluster(c, out); break; case 7: case_partial_witness(c, out); break; case 8: case_accseq(c, out); break; case 9: case_config(c, out); break; case 10: case_view_direct(c, out); break; default: break; }
+}
+
+static void dispatch_guarded(const CaseId& c, Out& out) {
+    try { dispatch(c, out); }
+    catch (const std::exception& e) {
+        std::string last; { std::ifstream f(out.dir + "/lastcase.txt"); last.assign((std::istreambuf_iterator<char>(f)), {}); }
+        if (last.empty() || last[0] != '{') { std::ostringstream o; o << "{\"harness\":\"c16\",\"seed\":" << c.seed << ",\"stream\":" << c.stream << ",\"idx\":" << c.idx << ",\"tier\":\"" << c.tier << "\"}"; last = o.str(); }
+        out.fail("svd-uncaught-exception", std::string("an exception escaped the case: ") + e.what(), last);
+    }
+}
 static long json_num(const std::string& t, const std::string& key, long dflt) { auto p = t.find("\"" + key + "\":"); if (p == std::string::npos) return dflt; return std::atol(t.c_str() + p + key.size() + 3); }
 
 int main(int argc, char** argv) {
@@ -531,20 +927,24 @@ int main(int argc, char** argv) {
         std::ifstream f(a.replay); std::string t((std::istreambuf_iterator<char>(f)), {});
         CaseId c{(uint64_t) json_num(t, "seed", (long) a.seed), (int) json_num(t, "stream", 1), json_num(t, "idx", 0), a.tier};
         auto p = t.find("\"tier\":\""); if (p != std::string::npos) { auto q = t.find('"', p + 8); c.tier = t.substr(p + 8, q - p - 8); }
-        dispatch(c, out); out.finish(); return out.nfail ? 1 : 0;
+        dispatch_guarded(c, out); out.finish(); return out.nfail ? 1 : 0;
     }
     const bool th = a.thorough();
     long n4 = 8, n1 = th ? 9000 : 260, n2 = th ? 3000 : 300, n3 = th ? 12000 : 400, n5 = th ? 5000 : 200, n6 = th ? 3000 : 240, n7 = 6;
-    for (long i = 0; i < n4; i++) dispatch(CaseId{a.seed, 4, i, a.tier}, out);
+    const long n8 = th ? 4000 : 220, n9 = config_count() * (th ? 6 : 1), n10 = th ? 1600 : 96;
+    for (long i = 0; i < n4; i++) dispatch_guarded(CaseId{a.seed, 4, i, a.tier}, out);
     // fixed witnesses (independent of VERIF_SEED and tier) of F5 (NaN on rank-deficient input; repaired by a913b0d: must now be silent) and of the recorded finding F12 (small norm)
-    { const long f5[] = {283, 273}; for (long i : f5) dispatch(CaseId{1, 3, i, "quick"}, out);
-      const long f12[] = {19, 4}; for (long i : f12) dispatch(CaseId{1, 5, i, "quick"}, out); out.count("fixed_witness_cases", 4); }
-    for (long i = 0; i < n1; i++) dispatch(CaseId{a.seed, 1, i, a.tier}, out);
-    for (long i = 0; i < n2; i++) dispatch(CaseId{a.seed, 2, i, a.tier}, out);
-    for (long i = 0; i < n3; i++) dispatch(CaseId{a.seed, 3, i, a.tier}, out);
-    for (long i = 0; i < n5; i++) dispatch(CaseId{a.seed, 5, i, a.tier}, out);
-    for (long i = 0; i < n7; i++) dispatch(CaseId{a.seed, 7, i, a.tier}, out);
-    for (long i = 0; i < n6; i++) dispatch(CaseId{a.seed, 6, i, a.tier}, out);
+    { const long f5[] = {283, 273}; for (long i : f5) dispatch_guarded(CaseId{1, 3, i, "quick"}, out);
+      const long f12[] = {19, 4}; for (long i : f12) dispatch_guarded(CaseId{1, 5, i, "quick"}, out); out.count("fixed_witness_cases", 4); }
+    for (long i = 0; i < n1; i++) dispatch_guarded(CaseId{a.seed, 1, i, a.tier}, out);
+    for (long i = 0; i < n2; i++) dispatch_guarded(CaseId{a.seed, 2, i, a.tier}, out);
+    for (long i = 0; i < n3; i++) dispatch_guarded(CaseId{a.seed, 3, i, a.tier}, out);
+    for (long i = 0; i < n5; i++) dispatch_guarded(CaseId{a.seed, 5, i, a.tier}, out);
+    for (long i = 0; i < n7; i++) dispatch_guarded(CaseId{a.seed, 7, i, a.tier}, out);
+    for (long i = 0; i < n6; i++) dispatch_guarded(CaseId{a.seed, 6, i, a.tier}, out);
+    for (long i = 0; i < n8; i++) dispatch_guarded(CaseId{a.seed, 8, i, a.tier}, out);
+    for (long i = 0; i < n9; i++) dispatch_guarded(CaseId{a.seed, 9, i, a.tier}, out);
+    for (long i = 0; i < n10; i++) dispatch_guarded(CaseId{a.seed, 10, i, a.tier}, out);
     out.finish();
     return 0;
 }
